@@ -895,6 +895,13 @@ def emit_fn(out, u, fs, rules_used):
     # line accounting: the signature occupies original lines first_line .. line_of(kbody)
     out.add_repo(sig_line, fs.file, first_line)
     def emit_clause_group(clauses, kinds_order, indent):
+        # tooling only (tools/dep_audit.py): VERIF_DROP_CLAUSE="<fn>#<k>" leaves out the k-th `ensures` clause of <fn>, to find
+        # out which other obligations are proved from it
+        drop = os.environ.get("VERIF_DROP_CLAUSE", "")
+        if drop and drop.rsplit("#", 1)[0] == fs.name:
+            ens = [c for c in clauses if c.kind == "ensures"]
+            kk = int(drop.rsplit("#", 1)[1])
+            if kk < len(ens): clauses = [c for c in clauses if c is not ens[kk]]
         for kind in kinds_order:
             cs = [c for c in clauses if c.kind == kind]
             if not cs: continue
